@@ -129,7 +129,7 @@ func (p *predPlugin) PreemptionPredicates(args *si.PreemptionPredicatesArgs) *si
 	// succeeds once all offered victims are removed
 	return &si.PreemptionPredicatesResponse{Success: true, Index: int32(len(args.PreemptAllocationKeys)) - 1}
 }
-func (p *predPlugin) SendEvent([]*si.EventRecord)                                       {}
+func (p *predPlugin) SendEvent([]*si.EventRecord)                                              {}
 func (p *predPlugin) UpdateContainerSchedulingState(*si.UpdateContainerSchedulingStateRequest) {}
 
 // ---------------------------------------------------------------- the stack
@@ -359,10 +359,12 @@ func (s *coreStack) dump() map[string]interface{} {
 
 type coreDrv struct {
 	// obs (optional) sees every finished operation (request, messages, dump); returning true swallows the line
-	obs func(op, line map[string]interface{}) bool
-	c  *Ctx
-	s  *coreStack
-	id string // component name in the protocol
+	obs  func(op, line map[string]interface{}) bool
+	c    *Ctx
+	s    *coreStack
+	id   string            // component name in the protocol
+	hook func(name string) // called after every emitted operation (malformed.go injects raw SI requests here)
+	lite bool              // lines carry the operation only (malformed.go dumps the state around its own requests)
 }
 
 func nodeInfo(id string, action si.NodeInfo_ActionFromRM, capacity *resources.Resource) *si.NodeInfo {
@@ -430,8 +432,10 @@ func (d *coreDrv) applyWithTap(op map[string]interface{}, tap func([]map[string]
 	if d.s != nil {
 		d.settle()
 		msgs := d.s.h.take()
-		line["msgs"] = msgs
-		line["st"] = d.s.dump()
+		if !d.lite {
+			line["msgs"] = msgs
+			line["st"] = d.s.dump()
+		}
 		if tap != nil {
 			tap(msgs)
 		}
@@ -440,6 +444,9 @@ func (d *coreDrv) applyWithTap(op map[string]interface{}, tap func([]map[string]
 		return
 	}
 	c.emit(line)
+	if d.hook != nil {
+		d.hook(name)
+	}
 }
 
 // settle waits for the asynchronous terminated-application callback (a goroutine started by the state machine):
